@@ -103,6 +103,28 @@ def run(pid, tier, seed, replay):
         t["lines"] += t2["lines"]
         t["distinct"] += t2["distinct"]
         t["generated"] += t2["generated"]
+    if pid == "C14" and not replay:
+        # the composed model (Sheens.tla: crew routing + breadth-first re-injection + real step/walk/match semantics):
+        # model-checked on a concrete crew and compared step by step with a real crew built from the same configuration
+        sdrv = vlib.build_driver("sheensdrv", wd)
+        d = vlib.fresh_dir(pid, "mc_sheens")
+        vlib.run([sdrv, "config", os.path.join(d, "config.ndjson")])
+        r = vlib.tlc_ok(d, "MC_Sheens.tla", "MC_Sheens.cfg", workers=4, timeout=1800, heap="4g")
+        t["distinct"] += r["distinct"]
+        t["generated"] += r["generated"]
+        sout = os.path.join(wd, "sheens_runs.ndjson")
+        vlib.run([sdrv, "run", str(400 if tier == "quick" else 8000), str(seed), sout], timeout=6000)
+        jd3 = vlib.fresh_dir(pid, "judge_sheens")
+        bad3, stats3, t3 = vlib.judge_cases(jd3, "Trace_Sheens.tla", "Trace_Sheens.cfg", sout)
+        for b in bad3:
+            c = b["case"]
+            rep.reject("sio crew differs from the composed model at step(s) %s" % b.get("at"), b.get("sigs", []),
+                       {"property": pid, "labels": sorted(b["sheens"]), "at": b.get("at"), "case": {"steps": c["steps"]}})
+        log("  Sheens.tla: %d states, scenario invariants hold; %d runs of the real crew agree with the composed model (%d rejected)" % (r["distinct"], t3["lines"], len(bad3)))
+        extra_stats.update({"sheens." + k: v for k, v in stats3.items()})
+        t["lines"] += t3["lines"]
+        t["distinct"] += t3["distinct"]
+        t["generated"] += t3["generated"]
     rc = rep.finish()
     stats.update(extra_stats)
     first = json.loads(open(out).readline())
